@@ -1,9 +1,12 @@
 (* C05 — 3-D point containment.
    Model: Model/Inside.v (inside_halfspaces, inside_polyhedron = winding number with
-   lexicographic tie-breaking, inside_ellipsoid; cover / surface_dist2 = exact specs). *)
+   lexicographic tie-breaking, inside_ellipsoid; cover / surface_dist2 = exact specs);
+   Model/Sphero.v (ConvexSpheropolyhedron.is_inside: core, extruded faces, edge cylinders, vertex spheres - exact, square-root free;
+   run against the implementation and against the exact specification on every run). *)
 From Coq Require Import Reals QArith Qreals List ZArith Bool Lra Permutation.
 Require Import Cox.Num.Ops Cox.Num.Transfer Cox.Geo.Vec Cox.Model.Mesh Cox.Model.Inside
-  Cox.Thm.InsideThm Cox.Thm.InsideTransfer Cox.Thm.MeshTransfer Cox.Thm.Winding3Thm Cox.Thm.WindingThm Cox.Thm.Piercing.
+  Cox.Thm.InsideThm Cox.Thm.InsideTransfer Cox.Thm.MeshTransfer Cox.Thm.Winding3Thm Cox.Thm.WindingThm Cox.Thm.Piercing
+  Cox.Model.Sphero Cox.Thm.SpheroThm.
 Import ListNotations.
 
 (* convex: the normalised signed distance the code tests has the sign of the exact side value,
@@ -109,3 +112,30 @@ Example C05_cube :
   /\ inside_polyhedron Qops (1#2, 1#2, 2)%Q TT = false
   /\ cover Qops (7#3, 22#7, 45#11)%Q (1#2, 1#2, 1#2)%Q TT = 1%Z.
 Proof. vm_compute. repeat split; reflexivity. Qed.
+
+
+(* ---------- convex spheropolyhedra (PARTIAL: soundness and the edge test; completeness per instance) ---------- *)
+(* the edge part of the face test - cylinder without caps about the edge, spheres about its two end points - accepts a point exactly
+   when the point is within r of the closed edge segment (r2 = r^2; every edge with distinct end points, every real point) *)
+Theorem C05_spheropolyhedron_edge_test_is_segment_distance :
+  forall (r2 : R) (a b p : vec3 R), a <> b ->
+    (in_cylinder Rops r2 a b p = true \/ in_cap Rops r2 a p = true \/ in_cap Rops r2 b p = true)
+    <-> exists t : R, (0 <= t <= 1)%R /\ (dist2 p (on_seg a b t) <= r2)%R.
+Proof. exact spherocylinder_spec. Qed.
+Print Assumptions C05_spheropolyhedron_edge_test_is_segment_distance.
+
+(* soundness, any number of faces of any size: whatever the algorithm accepts is in the core or within r of a point of a face (a point
+   of the face plane inside every side plane), for well-formed faces (convex planar cycles, counter-clockwise about the normal) *)
+Theorem C05_spheropolyhedron_accepts_only_near_points_partial :
+  forall (r2 : R) (Fs : list (list (vec3 R))) (x : vec3 R),
+    (forall F, In F Fs -> face_wf F) -> sphero_inside Rops r2 Fs x = true ->
+    in_core Rops Fs x = true \/ exists F y, In F Fs /\ in_faceP F y /\ (dist2 x y <= r2)%R.
+Proof. exact sphero_inside_sound. Qed.
+Print Assumptions C05_spheropolyhedron_accepts_only_near_points_partial.
+(* partial: the converse (every point within r of the core is accepted: the nearest face is among those looked at, and a point over a
+   face but outside its extrusion is near an edge) is NOT proved; it is decided per instance against the exact squared distance to the
+   triangulated surface (Model/Inside.v surface_dist2) - harness kinds spheropolyhedron-algorithm-vs-specification and
+   spheropolyhedron-model-vs-implementation. *)
+Example C05_spheropolyhedron_face_example :
+  face_wf ex_face /\ to_check Rops (/ 4)%R ex_face (/ 2, - (3 / 10), 6 / 5)%R = true /\ check_face Rops (/ 4)%R ex_face (/ 2, - (3 / 10), 6 / 5)%R = true.
+Proof. split; [exact ex_face_wf | exact ex_face_accepts]. Qed.
